@@ -188,3 +188,35 @@ BP('C18', 'rf-c18-3', 'rf-c18-3.diff',
    'independent refactoring: ResourcePool::acquire_resource: the `while resources.is_empty() { wait; timeout check; re-bind guard }` loop followed by `resources.pop_front().unwrap()` is rewritten as a `loop` that first tries `if let Some((discriminant, resource)) = resources.pop_front() { return Ok(ResourcePoolItem { .. }) }` a')
 BP('C18', 'rf-c18-4', 'rf-c18-4.diff',
    'independent refactoring: The cache refresh sequence at the end of `compute_cache` (bump the pool discriminant, drain the pool, refill it with the freshly computed Merkle maps) is extracted, in both MithrilProverService (services/prover.rs) and LegacyMithrilProverService (services/prover_legacy.rs), from the async trait meth')
+BP('C04', 'rf-c04-1', 'rf-c04-1.diff',
+   'independent refactoring: Certificate::try_compute_hash (mithril-common/src/entities/certificate.rs) is split in three private helpers fed with the same Sha256 hasher: feed_hash_with_signed_content (previous hash, epoch, metadata hash, protocol message hash, signed message, concatenation AVK), feed_hash_with_signature (signe')
+BP('C04', 'rf-c04-2', 'rf-c04-2.diff',
+   'independent refactoring: CertificateMetadata::compute_hash (mithril-common/src/entities/certificate_metadata.rs): the sequence of `hasher.update(..)` statements on a mutable hasher becomes a `Sha256::new().chain_update(..)` chain, the `for party in &self.signers` loop becomes `signers.iter().map(StakeDistributionParty::comp')
+BP('C04', 'rf-c04-3', 'rf-c04-3.diff',
+   'independent refactoring: ProtocolMessage legacy digest (mithril-common/src/entities/protocol_message.rs): the private method `compute_legacy_digest_bytes(&self)` becomes a private associated function taking only what it hashes, `compute_legacy_digest_bytes(message_parts: &BTreeMap<ProtocolMessagePartKey, ProtocolMessagePart')
+BP('C04', 'rf-c04-4', 'rf-c04-4.diff',
+   'independent refactoring: CertificateMessage <-> Certificate conversions (mithril-common/src/messages/certificate.rs). (a) TryFrom<CertificateMessage> for Certificate: the fallible field conversions written inline in the struct literal (concatenation AVK, SNARK AVK, ancillary prover data, ancillary verifier data, signature) ')
+BP('C05', 'rf-c05-1', 'rf-c05-1.diff',
+   'independent refactoring: mithril-stm MerkleTree::from_bytes_legacy (legacy binary decoder of the Merkle tree): the checked computation of the number of heap nodes is extracted into a new private helper `legacy_number_of_nodes(n) -> Option<usize>`, and the checked computation of the byte range of the i-th node plus the bound')
+BP('C05', 'rf-c05-2', 'rf-c05-2.diff',
+   'independent refactoring: mithril-stm ConcatenationProof decoders (the proof carried by an aggregate signature / certificate multi-signature). (a) `from_bytes`: the `if has_cbor_v1_prefix {..} else {legacy}` is inverted into an early return for the legacy branch, and the CBOR branch body is extracted into a new private `from')
+BP('C05', 'rf-c05-3', 'rf-c05-3.diff',
+   'independent refactoring: mithril-stm SingleSignature::from_bytes_legacy (legacy binary decoder of a single signature, reached from SingleSignature::from_bytes, SingleSignatureWithRegisteredParty::from_bytes, ConcatenationProof::from_bytes and the hex forms in mithril-common): the function is split in two. The first part - r')
+BP('C05', 'rf-c05-4', 'rf-c05-4.diff',
+   'independent refactoring: mithril-common hex / JSON-hex decoding entry points of the wire keys and signatures (ProtocolKey<T>: verification keys, single signatures, aggregate signatures, aggregate verification keys, ... reached through TryFrom<&str>/TryFrom<String>/Deserialize/from_json_hex/from_bytes_hex). (a) protocol_key.')
+BP('C06', 'rf-c06-1', 'rf-c06-1.diff',
+   'independent refactoring: mithril-stm KeyRegistration::close_registration split in two private helpers: compute_non_zero_total_stake (the try_fold/checked_add/ok_or chain rewritten as a for loop with an explicit match on checked_add, the `total_stake == 0` check moved from the caller into this helper) and close_entries (the ')
+BP('C06', 'rf-c06-2', 'rf-c06-2.diff',
+   'independent refactoring: Restated the ordering that fixes signer slots and Merkle leaf order. BlsVerificationKey: the private helper compare_verification_keys (manual zip loop over the two 96-byte compressed encodings) is inlined into Ord::cmp and replaced by the equivalent library comparison of the two [u8; 96] arrays. Reg')
+BP('C06', 'rf-c06-3', 'rf-c06-3.diff',
+   'independent refactoring: Signer-slot lookup and concatenation Merkle commitment construction in mithril-stm. (a) ClosedKeyRegistration::to_merkle_tree: filter_map+collect rewritten as a for loop pushing the Some leaves. (b) get_signer_index_for_registration: `.iter().position(..).map(|s| s as u64)` rewritten as an enumerate')
+BP('C06', 'rf-c06-4', 'rf-c06-4.diff',
+   'independent refactoring: mithril-common registration/AVK path shared by signer, aggregator and client. SignerBuilder: the clerk construction duplicated in build_multi_signer and compute_aggregate_verification_key is extracted into a private helper build_protocol_clerk() returning (ProtocolClerk, Parameters); the body of the')
+BP('C08', 'rf-c08-1', 'rf-c08-1.diff',
+   'independent refactoring: mithril-stm/src/proof_system/concatenation/eligibility.rs: clean-up of `taylor_comparison` (num-integer backend), the loop that decides `q < exp(x)` for the lottery. Locals renamed (new_x -> next_term, phi -> partial_sum, divisor -> term_index), the constant M = 3 hoisted out of the loop into `error')
+BP('C08', 'rf-c08-2', 'rf-c08-2.diff',
+   'independent refactoring: mithril-stm/src/proof_system/concatenation/eligibility.rs: `is_lottery_won` (num-integer backend, the eligibility decision shared by signer and verifier) is split into three steps. The `phi_f == 1` shortcut is kept in place but its condition is named with a boolean local (`is_phi_f_one`); the conver')
+BP('C08', 'rf-c08-3', 'rf-c08-3.diff',
+   'independent refactoring: mithril-stm/src/proof_system/concatenation/signer.rs (signer side of the lottery): `ConcatenationProofSigner::check_lottery` is rewritten from a `for` loop that pushes winning indices into a mutable Vec into the iterator chain `(0..m).filter(|&index| { let ev = sigma.evaluate_dense_mapping(msg, inde')
+BP('C08', 'rf-c08-4', 'rf-c08-4.diff',
+   'independent refactoring: mithril-stm/src/proof_system/concatenation/single_signature.rs (verifier side of the lottery): the body of the loop in `SingleSignatureForConcatenation::check_indices` (index bound check, evaluation of the dense mapping, `is_lottery_won` test) is extracted into a new private method `check_index(&sel')
